@@ -693,8 +693,9 @@ class Parser:
         if self._current_token.is_a(TokenTypes.TIME_PATTERN):
             return TimePattern.from_string(str(self._current_token))
         if self._current_token.is_a(TokenTypes.NAME):
-            return self._context.get_macro(str(self._current_token)).value
-        return TimePattern(None, None)
+            value = self._context.get_macro(str(self._current_token)).value
+            return value if isinstance(value, TimePattern) else None
+        return None
 
     def _current_reg(self):
         if not self._current_token.is_a(TokenTypes.REGISTER):
